@@ -67,6 +67,10 @@ def struct_faults(w, msg_bytes, r):
         pool = [u for k in kinds for u in inv[k]]
         return pool[r.randrange(len(pool))] if pool else None
 
+    def wrong_each(kinds):
+        """one node of EACH wrong kind that exists in the file"""
+        return [(k, inv[k][r.randrange(len(inv[k]))]) for k in kinds if inv[k]]
+
     out = []
 
     def emit(desc, m, exp=None):
@@ -82,31 +86,29 @@ def struct_faults(w, msg_bytes, r):
                     x = fresh()
                     x.modules[mi].symbols[si].referent_uuid = missing
                     emit("dangling:symbol_referent:%d.%d" % (mi, si), x, "deser")
-                    wu = wrong(("sym", "sec", "bi", "mod", "ir"))
-                    if wu is not None and wu != s.uuid:
-                        x = fresh()
-                        x.modules[mi].symbols[si].referent_uuid = wu
-                        emit("illtyped:symbol_referent:%d.%d" % (mi, si), x, "deser")
+                    for wk, wu in wrong_each(("sym", "sec", "bi", "mod", "ir")):
+                        if wu != s.uuid:
+                            x = fresh()
+                            x.modules[mi].symbols[si].referent_uuid = wu
+                            emit("illtyped:symbol_referent->%s:%d.%d" % (wk, mi, si), x, "deser")
                 n += 1
         if m.entry_point:
             x = fresh()
             x.modules[mi].entry_point = missing
             emit("dangling:entry_point:%d" % mi, x, "deser")
-            wu = wrong(("db", "px", "sym", "sec", "bi"))
-            if wu is not None:
+            for wk, wu in wrong_each(("db", "px", "sym", "sec", "bi", "mod", "ir")):
                 x = fresh()
                 x.modules[mi].entry_point = wu
-                emit("illtyped:entry_point:%d" % mi, x, "deser")
+                emit("illtyped:entry_point->%s:%d" % (wk, mi), x, "deser")
     for ei, e in enumerate(base.cfg.edges[:3]):
         for fld in ("source_uuid", "target_uuid"):
             x = fresh()
             setattr(x.cfg.edges[ei], fld, missing)
             emit("dangling:edge_%s:%d" % (fld, ei), x, "deser")
-            wu = wrong(("db", "sym", "sec", "bi", "mod"))
-            if wu is not None:
+            for wk, wu in wrong_each(("db", "sym", "sec", "bi", "mod", "ir")):
                 x = fresh()
                 setattr(x.cfg.edges[ei], fld, wu)
-                emit("illtyped:edge_%s:%d" % (fld, ei), x, "deser")
+                emit("illtyped:edge_%s->%s:%d" % (fld, wk, ei), x, "deser")
     n = 0
     for mi, m in enumerate(base.modules):
         for si, s in enumerate(m.sections):
@@ -121,11 +123,10 @@ def struct_faults(w, msg_bytes, r):
                         x = fresh()
                         setattr(getattr(x.modules[mi].sections[si].byte_intervals[bi_].symbolic_expressions[off], sub), fld, missing)
                         emit("dangling:expr_%s:%d.%d.%d@%d" % (fld, mi, si, bi_, off), x, "deser")
-                        wu = wrong(("cb", "db", "px", "sec", "bi"))
-                        if wu is not None:
+                        for wk, wu in wrong_each(("cb", "db", "px", "sec", "bi", "mod", "ir")):
                             x = fresh()
                             setattr(getattr(x.modules[mi].sections[si].byte_intervals[bi_].symbolic_expressions[off], sub), fld, wu)
-                            emit("illtyped:expr_%s:%d.%d.%d@%d" % (fld, mi, si, bi_, off), x, "deser")
+                            emit("illtyped:expr_%s->%s:%d.%d.%d@%d" % (fld, wk, mi, si, bi_, off), x, "deser")
     # --- duplicated UUIDs ------------------------------------------------------
     def all_nodes(x):
         """[(kind, setter)] over every node message of x"""
@@ -425,6 +426,7 @@ class FaultProfile(PersistProfile):
         c["boot"] = r.choice([12, 20, 30])
         c["weights"] = {"new": 7.0, "setattr": 3.0, "attr_sym": 4.0, "se": 4.0, "cfg": 4.0, "aux": 1.5, "setparent": 1.0, "setop": 0.5, "bytes": 0.5, "attr_index": 1.0}
         c["mode"] = "faults"
+        c["aux_unordered"] = False  # set/mapping element order on the wire depends on str hashing
         c["aux_depth"] = r.choice([1, 2])
         c["max_aux"] = 2
         c["max_ir"] = 1
@@ -501,6 +503,29 @@ class FaultProfile(PersistProfile):
                     raise Diverged("save failed")
                 chunks = w.disk.chunks.get("valid")
                 r0 = capture(lambda: do_load(w, "valid", "stream"))
+                if r0.kind == "ok":
+                    # Byte-level faults are addressed by position, so the bytes must not depend on
+                    # str hashing (order of section flags / expression attributes / map entries):
+                    # the file that is faulted is the saved message re-serialised canonically.
+                    cm = parse_file(w, data)
+                    for pm in cm.modules:
+                        for ps in pm.sections:
+                            fl = sorted(ps.section_flags)
+                            del ps.section_flags[:]
+                            ps.section_flags.extend(fl)
+                            for pb in ps.byte_intervals:
+                                for off in list(pb.symbolic_expressions):
+                                    pe = pb.symbolic_expressions[off]
+                                    fl = sorted(pe.attribute_flags)
+                                    del pe.attribute_flags[:]
+                                    pe.attribute_flags.extend(fl)
+                    body = cm.SerializeToString(deterministic=True)
+                    data = data[:8] + body
+                    chunks = list(chunks[:-1]) + [body] if chunks else [data[:5], data[5:6], data[6:7], data[7:8], body]
+                    rc = capture(lambda: w.g.IR.load_protobuf_file(io.BytesIO(data)))
+                    if rc.kind != "ok":
+                        raise Diverged("canonical re-serialisation of the valid file does not load: %r" % (rc.exc,))
+                    w.dropped.append(rc.raw)
                 if r0.kind != "ok":
                     w.violate(("C17", "C01"), "valid_file_rejected", "file produced by save from a self-contained IR is rejected: %s: %s" % (type(r0.exc).__name__, r0.exc))
                 w.dropped.append(r0.raw)
